@@ -1268,7 +1268,7 @@ WEAK_CODES = {
     3: "the forward and backward walks of a list disagree",
     4: "a node is linked twice or a sentinel is linked as a node",
     5: "an index entry points at a node that is not linked (or freed)",
-    6: "an index key is not the key stored in its own node",
+    6: "an index key does not point at the key of a linked node of its list",
     7: "a node is indexed twice",
 }
 
